@@ -340,7 +340,7 @@ def u1_u5(ctx, F):
                 cb = sym2(clo["body"])
                 atoms_t, atoms_e = [], []
                 for t_ in hir.subterms(cb):
-                    if isinstance(t_, tuple) and t_[:2] == ("bin", "==") and len(t_) == 4:
+                    if isinstance(t_, tuple) and t_[:1] == ("bin",) and t_[1] in ("==", "!=") and len(t_) == 4:
                         if any(isinstance(x_, tuple) and x_[:1] == ("call",) and str(x_[1]) == WR for x_ in t_[2:4]):
                             atoms_t.append(t_)
                         elif not any(isinstance(x_, tuple) and x_[:1] == ("lit",) for x_ in t_[2:4]):
@@ -349,7 +349,8 @@ def u1_u5(ctx, F):
                     tt = {}
                     for e_ in (True, False):
                         for x_ in (True, False):
-                            tt[(e_, x_)] = hir.fold(cb, {atoms_e[0]: ("lit", e_), atoms_t[0]: ("lit", x_)})
+                            # (e_, x_) say whether the two things are *equal*: an atom written with `!=` takes the opposite value
+                            tt[(e_, x_)] = hir.fold(cb, {atoms_e[0]: ("lit", e_ == (atoms_e[0][1] == "==")), atoms_t[0]: ("lit", x_ == (atoms_t[0][1] == "=="))})
                     okc = tt[(True, True)] == ("lit", True) and all(tt[k_] == ("lit", False) for k_ in ((True, False), (False, True), (False, False)))
                     ctx.check("C12.U1", "acceptance-needs-both-the-same-move-and-the-same-text", okc, fn=POS, file=fn["file"], line=hir.line(n),
                               what="a legal move matches the input only if it equals the parsed move AND its text equals the input string",
